@@ -355,8 +355,16 @@ def E_binary(d, d2):
 
 def _sympy_glue_worker(s):
     from .. import engined as E
+    from . import c15
+    import vector
     F = E.Fails()
     st = sympy_vs_object_glue(F, [s])
+    # in-place operators of the SymPy backend (its own _replace_data): every stored coordinate equals the functional result's
+    d = len(s) + 1
+    for mom in (False, True):
+        cls = {(2, False): vector.VectorSympy2D, (3, False): vector.VectorSympy3D, (4, False): vector.VectorSympy4D,
+               (2, True): vector.MomentumSympy2D, (3, True): vector.MomentumSympy3D, (4, True): vector.MomentumSympy4D}[(d, mom)]
+        c15.sympy_inplace(lambda oid, ok, dd=None: F.check("C08", oid, ok, dd), cls, tuple(s), mom, prefix="sympy-glue/inplace")
     return F.n, F.bad, st
 
 
